@@ -1448,5 +1448,625 @@ theorem compCheck_quiet (m : Model) (a l' : Live) (hfix : compCheck m a = a)
     exact this.symm
   · rfl
 
+/-! ## Stage 4 — the two runs side by side -/
+
+/-- the sort key read from `l` with the PERT fields of `q` is the key read from `q`, when the
+remaining work is the same -/
+theorem taskKey_setP (m : Model) (q l : Live) (lg : Logs) (rule : TaskRule) (t : Nat)
+    (h : l.rem = q.rem) : taskKey m (setP q l) lg rule t = taskKey m q lg rule t := by
+  cases rule <;> first | rfl | (show l.rem t = q.rem t; rw [h])
+
+theorem taskLe_setP (m : Model) (q l : Live) (lg : Logs) (rule : TaskRule) (x y : Nat)
+    (h : l.rem = q.rem) : taskLe m (setP q l) lg rule x y = taskLe m q lg rule x y := by
+  unfold taskLe
+  rw [taskKey_setP m q l lg rule x h, taskKey_setP m q l lg rule y h]
+
+theorem finishGate_fsOnly (m : Model) (hfs : FSOnly m) (ts : Nat → TS) (t : Nat) (ht : t < m.nT) :
+    finishGate m ts t = true := by
+  rw [Lifecycle.finishGate_iff]
+  intro e he
+  have := (hfs t ht).1 e he
+  rw [this]
+  exact ⟨(fun h => nomatch h), (fun h => nomatch h)⟩
+
+/-- on a finish-to-start network no remaining work is negative after `check_state(FINISHED)` -/
+theorem rem_nonneg_fsOnly (m : Model) (hfs : FSOnly m) (l : Live) (h : RemOK m l) :
+    ∀ t, t < m.nT → 0 ≤ (upd0 m l).rem t := by
+  intro t ht
+  have e : (upd0 m l).rem = (chkFinished m l).rem := Idem.update_rem m 0 l
+  rw [e]
+  by_cases hw : (chkFinished m l).tstate t = .working
+  · have hc := chkFinished_noCand m l t ht
+    rw [finishGate_fsOnly m hfs _ t ht, Bool.and_true] at hc
+    simp only [finishCand, hw, beq_self_eq_true, Bool.true_and, decide_eq_false_iff_not] at hc
+    exact Rat.le_of_lt (Rat.not_le.mp hc)
+  · exact RemOK_chkFinished m l h t ht hw
+
+/-- the side conditions on the model that the working-step lemma needs -/
+structure ModelOK (m : Model) (rule : TaskRule) : Prop where
+  noInd : NoIndAbs m
+  compNoAuto : CompNoAuto m
+  wf : WF m
+  notFifo : rule ≠ .fifo
+  slack : rule = .tslack → SlackOK m
+
+/-- invariants of the live state at the top of an iteration (before `__update`) -/
+structure Good (m : Model) (l : Live) : Prop where
+  inv : AllocInv m l
+  hold : HoldWorking l
+  remOK : RemOK m l
+
+theorem Good.update {m : Model} {l : Live} (h : Good m l) (time : Nat) : Good m (update m time l) :=
+  ⟨(update_C03 time h.inv h.hold).1, (update_C03 time h.inv h.hold).2, RemOK_update m time l h.remOK⟩
+
+theorem Good.stepBody {m : Model} (p : Params) {s : St} (h : Good m s.live) :
+    Good m (stepBody m p s).live :=
+  ⟨(stepBody_C03 p h.inv h.hold).1, (stepBody_C03 p h.inv h.hold).2.1, RemOK_stepBody m p s h.remOK⟩
+
+/-- **the simulation relation**, between the state `a0` of run A (absence list `L`) and the state
+`b0` of run B (no absence), both at the top of an iteration: the `updated` live states are
+related by `LRel`; B's clock is A's minus the number of absence steps executed so far; B's logs
+are A's with the rows of those steps deleted. -/
+structure Rel (m : Model) (L : List Nat) (a0 b0 : St) : Prop where
+  live : LRel m (update m a0.time a0.live) (update m b0.time b0.live)
+  time : a0.time = b0.time + (stepsBelow a0.time L).length
+  logs : removeLogs m (stepsBelow a0.time L) a0.logs = b0.logs
+  alignA : Aligned m a0
+  goodA : Good m a0.live
+  goodB : Good m b0.live
+
+/-- the comparison functions of the two runs agree at related states -/
+theorem taskLe_rel (m : Model) (rule : TaskRule) (hm : ModelOK m rule) (L : List Nat) (a0 b0 : St)
+    (h : Rel m L a0 b0) (lgA lgB : Logs) (x y : Nat) (hx : x < m.nT) (hy : y < m.nT) :
+    taskLe m (setP (update m a0.time a0.live) (update m b0.time b0.live)) lgA rule x y =
+      taskLe m (update m b0.time b0.live) lgB rule x y := by
+  have hr : (upd0 m a0.live).rem = (upd0 m b0.live).rem := h.live.rem
+  rw [taskLe_setP m _ _ lgA rule x y h.live.rem.symm, update_eq, update_eq, h.time]
+  exact taskLe_pert_shift m hm.wf rule hm.notFifo (upd0 m b0.live) (upd0 m a0.live) hr
+    (fun ht => ⟨hm.slack ht, rem_nonneg_fsOnly m (hm.slack ht).1 b0.live h.goodB.remOK⟩)
+    b0.time _ lgB lgA x y hx hy
+
+/-- **a working step preserves the relation** -/
+theorem rel_working (m : Model) (pA pB : Params) (hm : ModelOK m pA.rule) (hrule : pB.rule = pA.rule)
+    (haf : pB.autoFlag = pA.autoFlag) (hB : pB.absence = [])
+    (a0 b0 : St) (h : Rel m pA.absence a0 b0) (hw : pA.absence.contains a0.time = false) :
+    Rel m pA.absence (stepBody m pA (updated m a0)) (stepBody m pB (updated m b0)) := by
+  have hwA : (!(pA.absence.contains (updated m a0).time)) = true := by
+    show (!(pA.absence.contains a0.time)) = true
+    rw [hw]; rfl
+  have hwB : (!(pB.absence.contains (updated m b0).time)) = true := by rw [hB]; rfl
+  have gA := h.goodA.update a0.time
+  have gB := h.goodB.update b0.time
+  have hle := taskLe_rel m pA.rule hm pA.absence a0 b0 h (updated m a0).logs (updated m b0).logs
+  -- the live states at the cost / perform boundary and after the step
+  have hpre := preLive_working m hm.noInd hm.compNoAuto pA.rule (updated m a0).live (updated m b0).live
+    (updated m a0).logs (updated m b0).logs (updated m a0).time (updated m b0).time h.live gB.hold hle
+  have hlive : (stepBody m pA (updated m a0)).live =
+      setP (updated m a0).live (stepBody m pB (updated m b0)).live := by
+    rw [stepBody_live_eq, stepBody_live_eq, hwA, hwB, hrule, haf]
+    exact stepLive_working m hm.noInd hm.compNoAuto pA.rule pA.autoFlag _ _ _ _ _ _ h.live gB.hold hle
+  have hsteps : stepsBelow (a0.time + 1) pA.absence = stepsBelow a0.time pA.absence :=
+    stepsBelow_succ_of_not_mem _ _ hw
+  refine ⟨?_, ?_, ?_, ?_, ?_, ?_⟩
+  · show LRel m (update m (a0.time + 1) (stepBody m pA (updated m a0)).live)
+      (update m (b0.time + 1) (stepBody m pB (updated m b0)).live)
+    rw [hlive]
+    exact update_rel_setP m _ _ _ _
+  · show a0.time + 1 = b0.time + 1 + (stepsBelow (a0.time + 1) pA.absence).length
+    rw [hsteps]; have := h.time; omega
+  · show removeLogs m (stepsBelow (a0.time + 1) pA.absence) (stepBody m pA (updated m a0)).logs = _
+    rw [hsteps, stepBody_logs_eq, stepBody_logs_eq, hwA, hwB, hlive, hrule, hpre, addRow_setP]
+    have := removeLogs_addRow_keep m true
+      (preLive m (updated m b0).logs pA.rule (updated m b0).time true (updated m b0).live)
+      (stepBody m pB (updated m b0)).live a0 h.alignA (stepsBelow a0.time pA.absence)
+      (stepsBelow_pairwise _ _) (fun d hd => (mem_stepsBelow.1 hd).1)
+    show removeLogs m _ (addRow m true _ _ a0.logs) = addRow m true _ _ b0.logs
+    rw [this, h.logs]
+  · exact C08_aligned_step _ (C08_aligned_updated _ h.alignA)
+  · exact Good.stepBody pA (s := updated m a0) gA
+  · exact Good.stepBody pB (s := updated m b0) gB
+
+/-! ### the loop -/
+
+theorem Ahead.allFinished {m : Model} {a b : Live} (h : Ahead m a.tstate b.tstate) :
+    allFinished m a = allFinished m b := by
+  unfold PDesy.allFinished
+  congr 1
+  funext t
+  exact h.finished t
+
+/-- what the loop theorem needs from an absence step of run A: it leads to the relation with the
+*same* state of run B (`J` is any further invariant of run A that the step lemma wants) -/
+def AbsStepOK (m : Model) (pA : Params) (J : St → Prop) : Prop :=
+  ∀ a0 b0, Rel m pA.absence a0 b0 → J a0 → pA.absence.contains a0.time = true →
+    Rel m pA.absence (stepBody m pA (updated m a0)) b0
+
+/-- what the two runs end with -/
+structure EndRel (m : Model) (L : List Nat) (rA rB : St) : Prop where
+  status : rB.status = .success
+  time : rA.time = rB.time + (stepsBelow rA.time L).length
+  logs : removeLogs m (stepsBelow rA.time L) rA.logs = rB.logs
+  align : Aligned m rA
+
+/-- **the loop, side by side**: if run A ends with SUCCESS, run B (with at least the fuel
+`simulate` gives it) ends with SUCCESS too, `d` steps earlier, with the logs of A minus the rows
+of the `d` absence steps A executed -/
+theorem loop_rel (m : Model) (pA pB : Params) (hm : ModelOK m pA.rule) (hrule : pB.rule = pA.rule)
+    (haf : pB.autoFlag = pA.autoFlag) (hB : pB.absence = []) (hmax : pB.maxTime = pA.maxTime)
+    (J : St → Prop) (hJ : ∀ a0, J a0 → J (stepBody m pA (updated m a0)))
+    (habs : AbsStepOK m pA J) :
+    ∀ (fuelA : Nat) (a0 b0 : St) (fuelB : Nat), Rel m pA.absence a0 b0 → J a0 →
+      a0.status ≠ .success → fuelOf pB b0 ≤ fuelB →
+      (loop m pA fuelA a0).status = .success →
+      EndRel m pA.absence (loop m pA fuelA a0) (loop m pB fuelB b0) := by
+  intro fuelA
+  induction fuelA with
+  | zero =>
+    intro a0 b0 fuelB _ _ hst _ hs
+    exact absurd hs hst
+  | succ n ih =>
+    intro a0 b0 fuelB h hj hst hfuel hs
+    obtain ⟨fB, rfl⟩ : ∃ k, fuelB = k + 1 := ⟨fuelB - 1, by have := fuelOf_pos pB b0; omega⟩
+    have hfin : allFinished m (updated m a0).live = allFinished m (updated m b0).live :=
+      Ahead.allFinished h.live.ts
+    rw [loop_succ] at hs ⊢
+    by_cases hA : allFinished m (updated m a0).live = true
+    · rw [if_pos hA]
+      rw [loop_succ, if_pos (hfin ▸ hA)]
+      exact ⟨rfl, h.time, h.logs, C08_aligned_status _ _ (C08_aligned_updated _ h.alignA)⟩
+    · rw [if_neg hA] at hs ⊢
+      by_cases hT : a0.time ≥ pA.maxTime
+      · rw [if_pos hT] at hs
+        cases hs
+      · rw [if_neg hT] at hs ⊢
+        cases hc : pA.absence.contains a0.time
+        · -- a working step of both runs
+          have hBt : ¬ b0.time ≥ pB.maxTime := by
+            have := h.time; rw [hmax]; omega
+          rw [loop_succ m pB fB b0, if_neg (hfin ▸ hA), if_neg hBt]
+          apply ih _ _ fB (rel_working m pA pB hm hrule haf hB a0 b0 h hc) (hJ a0 hj) hst
+          · have := fuelOf_step m pB b0 hBt
+            omega
+          · exact hs
+        · -- an absence step of run A
+          exact ih _ b0 (fB + 1) (habs a0 b0 h hj hc) (hJ a0 hj) hst hfuel hs
+
+theorem LRel.refl (m : Model) (l : Live) : LRel m l l :=
+  ⟨Ahead.refl m _, rfl, rfl, rfl, rfl, rfl, rfl, rfl, rfl, fun _ _ => rfl, fun _ _ => rfl⟩
+
+theorem stepsBelow_zero (L : List Nat) : stepsBelow 0 L = [] := rfl
+
+theorem removeLogs_nil (m : Model) (g : Logs) : removeLogs m [] g = g := by
+  cases g
+  simp [removeLogs, popBy, popSteps]
+
+/-- the two runs enter their loops in related states -/
+theorem enter_rel (m : Model) (hw : WorkOK m) (p : Params) (L : List Nat) (s : St)
+    (hs : p.initState = true) (hl : p.initLog = true) :
+    Rel m L (enter m { p with absence := L } s) (enter m { p with absence := [] } s) := by
+  have ht : (enter m { p with absence := L } s).time = 0 := Logs.enter_time (p := { p with absence := L }) s hl
+  have htB : (enter m { p with absence := [] } s).time = 0 := Logs.enter_time (p := { p with absence := [] }) s hl
+  have hlg : (enter m { p with absence := L } s).logs = (enter m { p with absence := [] } s).logs := rfl
+  have hgood : ∀ q : Params, q.initState = true → Good m (enter m q s).live := by
+    intro q hq
+    obtain ⟨h1, h2, h3, h4⟩ := Alloc.enter_live_empty (m := m) (p := q) (s := s) hq
+    obtain ⟨i1, i2⟩ := AllocInv_of_empty (m := m) h1 h2 h3 h4
+    exact ⟨i1, i2, RemOK_enter m hw q s hq⟩
+  refine ⟨?_, ?_, ?_, ?_, hgood _ hs, hgood _ hs⟩
+  · exact LRel.refl m _
+  · rw [ht, htB]; rfl
+  · rw [ht, stepsBelow_zero, removeLogs_nil, hlg]
+  · exact C08_aligned_enter (p := { p with absence := L }) s (Or.inl hl)
+
+theorem enter_status (m : Model) (p : Params) (s : St) (hl : p.initLog = true) :
+    (enter m p s).status = .none := by
+  cases hs : p.initState <;> simp [enter, initProject, hl, hs]
+
+/-- what `remove_absence_time_list` makes of the end state of run A -/
+theorem removeAbs_of_endRel (m : Model) (L : List Nat) (rA rB : St) (h : EndRel m L rA rB)
+    (hab : rA.absence = L) (hsA : rA.status = .success) :
+    (removeAbs m rA).logs = rB.logs ∧ (removeAbs m rA).time = rB.time ∧
+      (removeAbs m rA).status = rB.status := by
+  have e : stepsBelow rA.logs.projCost.length rA.absence = stepsBelow rA.time L := by
+    rw [h.align.projCost, hab]
+  refine ⟨?_, ?_, ?_⟩
+  · show removeLogs m (stepsBelow rA.logs.projCost.length rA.absence) rA.logs = rB.logs
+    rw [e]; exact h.logs
+  · show rA.time - (stepsBelow rA.logs.projCost.length rA.absence).length = rB.time
+    rw [e]; have := h.time; omega
+  · show rA.status = rB.status
+    rw [hsA, h.status]
+
+/-- **C10, clause 3, from the absence-step lemma**: whatever `check_state(WORKING)` does at an
+absence step, if one absence step of run A leads to the relation with the same state of run B
+(`AbsStepOK`), then deleting the absence steps from a successful run with absence list `L` gives
+the logs, the clock and the status of the run without absence — which is successful too. -/
+theorem removal_of_absStep (m : Model) (p : Params) (L : List Nat) (s : St)
+    (hm : ModelOK m p.rule) (hw : WorkOK m) (hs : p.initState = true) (hl : p.initLog = true)
+    (J : St → Prop) (hJ0 : J (enter m { p with absence := L } s))
+    (hJ : ∀ a0, J a0 → J (stepBody m { p with absence := L } (updated m a0)))
+    (habs : AbsStepOK m { p with absence := L } J)
+    (hsucc : (simulate m { p with absence := L } s).status = .success) :
+    (removeAbs m (simulate m { p with absence := L } s)).logs = (simulate m { p with absence := [] } s).logs ∧
+    (removeAbs m (simulate m { p with absence := L } s)).time = (simulate m { p with absence := [] } s).time ∧
+    (removeAbs m (simulate m { p with absence := L } s)).status =
+      (simulate m { p with absence := [] } s).status ∧
+    (simulate m { p with absence := [] } s).status = .success := by
+  have hend := loop_rel m { p with absence := L } { p with absence := [] } hm rfl rfl rfl rfl J hJ habs
+    (fuelOf { p with absence := L } (enter m { p with absence := L } s))
+    (enter m { p with absence := L } s) (enter m { p with absence := [] } s)
+    (fuelOf { p with absence := [] } (enter m { p with absence := [] } s))
+    (enter_rel m hw p L s hs hl) hJ0
+    (by rw [enter_status m { p with absence := L } s hl]; intro h; cases h) (Nat.le_refl _)
+    (by rw [← simulate_eq]; exact hsucc)
+  rw [← simulate_eq, ← simulate_eq] at hend
+  have hab : (simulate m { p with absence := L } s).absence = L := by
+    rw [simulate_eq, loop_absence]; rfl
+  obtain ⟨h1, h2, h3⟩ := removeAbs_of_endRel m L _ _ hend hab hsucc
+  exact ⟨h1, h2, h3, hend.status⟩
+
+/-! ## The absence step in the current model (depends on `check_state(WORKING)` running at
+project absence steps) -/
+
+/-- what `__update` leaves behind: nothing to finish, components, placements and READY states
+at their fixpoints -/
+structure UpdFix (m : Model) (a : Live) : Prop where
+  noCand : NoCand m a
+  comp : compCheck m a = a
+  remove : chkRemove m a = a
+  ready : chkReady m a = a
+
+theorem updFix_update (m : Model) (time : Nat) (l : Live) : UpdFix m (update m time l) := by
+  have hn := update_NR m time l
+  exact ⟨NoCand_NR m (chkFinished_noCand m l) hn (Idem.update_rem m time l),
+    compCheck_fix m (chkReady m (chkRemove m (compCheck m (chkFinished m l)))) _ rfl rfl,
+    chkRemove_fix m (compCheck m (chkFinished m l)) _ (fun t => hn.finished t) rfl,
+    chkReady_fix m (chkRemove m (compCheck m (chkFinished m l))) _ rfl⟩
+
+/-- no start-to-start / start-to-finish link leaves an automatic task (such a successor would
+see the task "started" at the absence step, one working step early: a kept finding) -/
+def NoStartLink (m : Model) : Prop :=
+  ∀ t, t < m.nT → ∀ e ∈ (m.task t).inputs, (e.2 = .ss ∨ e.2 = .sf) → (m.task e.1).isAuto = false
+
+theorem startAuto_of_not_auto (m : Model) (ts : Nat → TS) (t : Nat) (h : (m.task t).isAuto = false) :
+    startAuto m ts t = ts t := by
+  unfold startAuto
+  rw [if_neg]
+  intro hh
+  have := hh.2.2
+  simp [freeAuto, h] at this
+
+theorem startAuto_cases (m : Model) (ts : Nat → TS) (t : Nat) :
+    startAuto m ts t = ts t ∨
+      (t < m.nT ∧ freeAuto m t = true ∧ startAuto m ts t = .working ∧ ts t = .ready) := by
+  unfold startAuto
+  split
+  · rename_i h; exact Or.inr ⟨h.1, h.2.2, rfl, h.2.1⟩
+  · exact Or.inl rfl
+
+theorem startAuto_ahead (m : Model) (ts : Nat → TS) : Ahead m (startAuto m ts) ts :=
+  startAuto_cases m ts
+
+theorem all_congr_mem {α : Type} (f g : α → Bool) (xs : List α) (h : ∀ x ∈ xs, f x = g x) :
+    xs.all f = xs.all g := by
+  induction xs with
+  | nil => rfl
+  | cons x xs ih =>
+    simp only [List.all_cons]
+    rw [h x (List.mem_cons_self ..), ih (fun y hy => h y (List.mem_cons_of_mem _ hy))]
+
+theorem readyGate_startAuto (m : Model) (hn : NoStartLink m) (ts : Nat → TS) (t : Nat) (ht : t < m.nT) :
+    readyGate m (startAuto m ts) t = readyGate m ts t := by
+  unfold readyGate
+  apply all_congr_mem
+  intro e he
+  obtain ⟨p, d⟩ := e
+  cases d
+  · exact (startAuto_ahead m ts).finished p
+  · show (startAuto m ts p).started = (ts p).started
+    rw [startAuto_of_not_auto m ts p (hn t ht _ he (Or.inl rfl))]
+  · rfl
+  · rfl
+
+theorem finishGate_startAuto (m : Model) (hn : NoStartLink m) (ts : Nat → TS) (t : Nat) (ht : t < m.nT) :
+    finishGate m (startAuto m ts) t = finishGate m ts t := by
+  unfold finishGate
+  apply all_congr_mem
+  intro e he
+  obtain ⟨p, d⟩ := e
+  cases d
+  · rfl
+  · rfl
+  · exact (startAuto_ahead m ts).finished p
+  · show (startAuto m ts p).started = (ts p).started
+    rw [startAuto_of_not_auto m ts p (hn t ht _ he (Or.inr rfl))]
+
+/-- READY component-free automatic tasks still have work to do -/
+def AutoPos (m : Model) (l : Live) : Prop :=
+  ∀ t, t < m.nT → (m.task t).isAuto = true → (l.tstate t = .none ∨ l.tstate t = .ready) → 0 < l.rem t
+
+/-- **`__update` after an absence step finds nothing to do** (but the PERT data): on the
+state `x` = an updated state `a` with the READY component-free automatic tasks started and
+other resource states -/
+theorem upd0_quiet (m : Model) (hn : NoStartLink m) (hc : CompNoAuto m) (a x : Live) (hu : UpdFix m a)
+    (hp : AutoPos m a) (hts : x.tstate = startAuto m a.tstate) (hrem : x.rem = a.rem)
+    (hcs : x.cstate = a.cstate) (hpl : x.placed = a.placed) : upd0 m x = x := by
+  have hah : Ahead m x.tstate a.tstate := by rw [hts]; exact startAuto_ahead m _
+  have hcomp : compCheck m x = x :=
+    compCheck_quiet m a x hu.comp (fun c t ht => hah.of_not_auto t (hc c t ht)) hcs
+  have h1 : chkFinished m x = x := by
+    apply chkFinished_of_noCand
+    intro t ht
+    have h0 := hu.noCand t ht
+    rw [hts, finishGate_startAuto m hn _ t ht]
+    rcases startAuto_cases m a.tstate t with e | ⟨_, hf, e1, e2⟩
+    · have : finishCand x t = finishCand a t := by
+        unfold finishCand; rw [hts, hrem, e]
+      rw [this]; exact h0
+    · have hauto : (m.task t).isAuto = true := by
+        unfold freeAuto at hf; simp only [Bool.and_eq_true] at hf; exact hf.1
+      have hpos := hp t ht hauto (Or.inr e2)
+      have : finishCand x t = false := by
+        unfold finishCand
+        rw [hrem]
+        simp only [Bool.and_eq_false_iff, decide_eq_false_iff_not]
+        right
+        exact Rat.not_le.mpr hpos
+      rw [this]; rfl
+  have h3 : chkRemove m x = x := by
+    apply chkRemove_of_none
+    intro c hlt
+    have e : removeCand m x c = removeCand m a c := by
+      unfold removeCand
+      rw [hpl]
+      congr 2
+      apply all_congr_mem
+      intro t _
+      exact hah.finished t
+    rw [e]
+    have hpc := chkRemove_placed m a c
+    rw [hu.remove] at hpc
+    by_cases hr : removeCand m a c = true
+    · rw [if_pos ⟨hlt, hr⟩] at hpc
+      simp [removeCand, hpc] at hr
+    · simpa using hr
+  have h4 : chkReady m x = x := by
+    apply live_ext <;> try rfl
+    funext t
+    rw [Lifecycle.chkReady_tstate]
+    split
+    · rename_i hcond
+      exfalso
+      simp only [Bool.and_eq_true, beq_iff_eq, decide_eq_true_eq] at hcond
+      obtain ⟨⟨hlt, h0⟩, hg⟩ := hcond
+      rw [hts, readyGate_startAuto m hn _ t hlt] at hg
+      have ha0 : a.tstate t = .none := by
+        have := hah.none t
+        rw [h0] at this
+        simpa using this.symm
+      have hv := Lifecycle.chkReady_tstate m a t
+      rw [hu.ready, ha0] at hv
+      split at hv
+      · cases hv
+      · rename_i hc'
+        apply hc'
+        simp [hlt, hg]
+    · rfl
+  unfold upd0
+  rw [h1, hcomp, h3, h4, hcomp]
+
+theorem ready_holds_nothing {l : Live} (hh : HoldWorking l) (t : Nat) (hr : l.tstate t = .ready) :
+    l.allocW t = [] ∧ l.allocF t = [] := by
+  constructor
+  · apply Classical.byContradiction
+    intro hn
+    have := hh t (Or.inl hn)
+    rw [hr] at this; cases this
+  · apply Classical.byContradiction
+    intro hn
+    have := hh t (Or.inr hn)
+    rw [hr] at this; cases this
+
+/-- allocated resources are inside the index ranges -/
+theorem alloc_in_range {m : Model} {l : Live} (hinv : AllocInv m l) (hoc : OutClean m l) :
+    (∀ t w, w ∈ l.allocW t → w < m.nW) ∧ (∀ t f, f ∈ l.allocF t → f < m.nF) := by
+  constructor
+  · intro t w hw
+    apply Classical.byContradiction
+    intro hn
+    have h1 := (hinv.w_two t w).mp hw
+    rw [hoc.2.1 w (by omega)] at h1
+    cases h1
+  · intro t f hf
+    apply Classical.byContradiction
+    intro hn
+    have h1 := (hinv.f_two t f).mp hf
+    rw [hoc.2.2 f (by omega)] at h1
+    cases h1
+
+/-- **an absence step of run A, live state** (flag off): READY component-free automatic tasks
+are started, every resource in range is ABSENCE, nothing else changes -/
+theorem stepLive_absence (m : Model) (haf : AutoFree m) (hc : CompNoAuto m) (a : Live) (lg : Logs)
+    (rule : TaskRule) (τ : Nat) (hu : UpdFix m a) (hinv : AllocInv m a) (hh : HoldWorking a)
+    (hoc : OutClean m a) :
+    stepLive m lg rule false τ false a = setT (startAuto m a.tstate) (absenceSet m τ false a) := by
+  unfold stepLive preLive
+  simp only [Bool.false_eq_true, if_false]
+  rw [perform_off]
+  obtain ⟨hrw, hrf⟩ := alloc_in_range hinv hoc
+  have hR : ∀ t, (absenceSet m τ false a).tstate t = .ready →
+      (absenceSet m τ false a).allocW t = [] ∧ (absenceSet m τ false a).allocF t = [] :=
+    fun t hr => ready_holds_nothing hh t hr
+  have hWa : ∀ t, ∀ w ∈ (absenceSet m τ false a).allocW t, (absenceSet m τ false a).wstate w = .absence := by
+    intro t w hw
+    have hlt : w < m.nW := hrw t w hw
+    simp [absenceSet, hlt]
+  have hFa : ∀ t, ∀ f ∈ (absenceSet m τ false a).allocF t, (absenceSet m τ false a).fstate f = .absence := by
+    intro t f hf
+    have hlt : f < m.nF := hrf t f hf
+    simp [absenceSet, hlt]
+  have e1 : chkWorking m (absenceSet m τ false a) =
+      setT (startAuto m a.tstate) (absenceSet m τ false a) := by
+    have := foldl_startOne_quiet m (absenceSet m τ false a) hR hWa hFa
+      ((List.range m.nT).filter (workingTarget m (absenceSet m τ false a)))
+    rw [← Alloc.chkWorking_eq, chkWorking_tstate_quiet m haf _ hR] at this
+    exact this
+  rw [e1]
+  exact compCheck_quiet m a _ hu.comp
+    (fun c t ht => startAuto_of_not_auto m a.tstate t (hc c t ht)) rfl
+
+theorem LRel_absence (m : Model) (a b x : Live) (h : LRel m a b)
+    (hts : x.tstate = startAuto m a.tstate) (hrem : x.rem = a.rem) (hW : x.allocW = a.allocW)
+    (hF : x.allocF = a.allocF) (hwa : x.wasg = a.wasg) (hfa : x.fasg = a.fasg)
+    (hcs : x.cstate = a.cstate) (hpl : x.placed = a.placed) (hwp : x.wpComps = a.wpComps)
+    (hwo : ∀ w, ¬ w < m.nW → x.wstate w = a.wstate w) (hfo : ∀ f, ¬ f < m.nF → x.fstate f = a.fstate f) :
+    LRel m x b := by
+  refine ⟨?_, hrem.trans h.rem, hW.trans h.allocW, hF.trans h.allocF, hwa.trans h.wasg,
+    hfa.trans h.fasg, hcs.trans h.cstate, hpl.trans h.placed, hwp.trans h.wpComps,
+    fun w hw => (hwo w hw).trans (h.wout w hw), fun f hf => (hfo f hf).trans (h.fout f hf)⟩
+  intro t
+  rw [hts]
+  rcases startAuto_cases m a.tstate t with e | ⟨hlt, hf, e1, e2⟩
+  · rw [e]; exact h.ts t
+  · rcases h.ts t with e' | ⟨_, _, e3, _⟩
+    · exact Or.inr ⟨hlt, hf, e1, by rw [← e']; exact e2⟩
+    · rw [e2] at e3; cases e3
+
+/-! ### the invariants of run A that the absence step needs -/
+
+theorem AutoPos_update (m : Model) (time : Nat) (l : Live) (h : AutoPos m l) :
+    AutoPos m (update m time l) := by
+  intro t ht ha hs
+  have hmono := Lifecycle.update_mono m time l t
+  have hnf : (update m time l).tstate t ≠ .finished := by
+    rcases hs with e | e <;> rw [e] <;> intro hh <;> cases hh
+  rw [Perform.update_rem_eq, if_neg (fun hh => hnf hh.1)]
+  apply h t ht ha
+  rcases hs with e | e
+  · rw [e] at hmono
+    left
+    cases hl : l.tstate t <;> simp [hl, TS.rank] at hmono ⊢
+  · rw [e] at hmono
+    cases hl : l.tstate t <;> simp [hl, TS.rank] at hmono ⊢
+
+theorem AutoPos_stepBody (m : Model) (p : Params) (s : St) (h : AutoPos m s.live) :
+    AutoPos m (stepBody m p s).live := by
+  intro t ht ha hs
+  have hmono := Lifecycle.stepBody_mono m p s t
+  have hnw : (Perform.preCost m p s).tstate t ≠ .working := by
+    rw [← Perform.stepBody_tstate]
+    rcases hs with e | e <;> rw [e] <;> intro hh <;> cases hh
+  rw [Perform.stepBody_rem, if_neg (fun hh => hnw hh.2.1)]
+  apply h t ht ha
+  rcases hs with e | e
+  · rw [e] at hmono
+    left
+    cases hl : s.live.tstate t <;> simp [hl, TS.rank] at hmono ⊢
+  · rw [e] at hmono
+    cases hl : s.live.tstate t <;> simp [hl, TS.rank] at hmono ⊢
+
+/-- the further side conditions on the model that the absence step of the current model needs -/
+structure ModelOKA (m : Model) : Prop where
+  autoFree : AutoFree m
+  noStart : NoStartLink m
+  facs : FacsInRange m
+  autoPos : ∀ t, t < m.nT → (m.task t).isAuto = true → 0 < (m.task t).work * (1 - (m.task t).prog)
+
+/-- the further invariant of run A -/
+def JA (m : Model) (a0 : St) : Prop := Good m a0.live ∧ OutClean m a0.live ∧ AutoPos m a0.live
+
+theorem JA_step (m : Model) (hA : ModelOKA m) (pA : Params) (a0 : St) (h : JA m a0) :
+    JA m (stepBody m pA (updated m a0)) := by
+  obtain ⟨g, oc, ap⟩ := h
+  have gu := g.update a0.time
+  exact ⟨Good.stepBody pA (s := updated m a0) gu,
+    stepBody_OutClean pA (s := updated m a0) hA.facs gu.inv (update_OutClean a0.time g.inv oc),
+    AutoPos_stepBody m pA (updated m a0) (AutoPos_update m a0.time a0.live ap)⟩
+
+theorem JA_enter (m : Model) (hA : ModelOKA m) (hw : WorkOK m) (p : Params) (s : St)
+    (hs : p.initState = true) : JA m (enter m p s) := by
+  obtain ⟨h1, h2, h3, h4⟩ := Alloc.enter_live_empty (m := m) (p := p) (s := s) hs
+  obtain ⟨i1, i2⟩ := AllocInv_of_empty (m := m) h1 h2 h3 h4
+  refine ⟨⟨i1, i2, RemOK_enter m hw p s hs⟩, ⟨fun t _ => ⟨h1 t, h2 t⟩, fun w _ => h3 w, fun f _ => h4 f⟩, ?_⟩
+  intro t ht ha _
+  rw [Lifecycle.enter_live, hs, Perform.initProject_rem _ _ _ ht]
+  exact hA.autoPos t ht ha
+
+/-- **an absence step of run A leads to the relation with the same state of run B**
+(current model: `check_state(WORKING)` runs at the absence step and starts the READY
+component-free automatic tasks; with the flag off nothing else happens) -/
+theorem rel_absence (m : Model) (pA : Params) (hm : ModelOK m pA.rule) (hA : ModelOKA m)
+    (hflag : pA.autoFlag = false) : AbsStepOK m pA (JA m) := by
+  intro a0 b0 h hj hc
+  obtain ⟨g, oc, ap⟩ := hj
+  have gu := g.update a0.time
+  have hu : UpdFix m (updated m a0).live := updFix_update m a0.time a0.live
+  have hwk : (!(pA.absence.contains (updated m a0).time)) = false := by
+    show (!(pA.absence.contains a0.time)) = false
+    rw [hc]; rfl
+  have hlive : (stepBody m pA (updated m a0)).live =
+      setT (startAuto m (updated m a0).live.tstate) (absenceSet m a0.time false (updated m a0).live) := by
+    rw [stepBody_live_eq, hwk, hflag]
+    exact stepLive_absence m hA.autoFree hm.compNoAuto _ _ _ _ hu gu.inv gu.hold
+      (update_OutClean a0.time g.inv oc)
+  have hq : upd0 m (stepBody m pA (updated m a0)).live = (stepBody m pA (updated m a0)).live := by
+    rw [hlive]
+    exact upd0_quiet m hA.noStart hm.compNoAuto (updated m a0).live _ hu
+      (AutoPos_update m a0.time a0.live ap) rfl rfl rfl rfl
+  have hsteps : stepsBelow (a0.time + 1) pA.absence = stepsBelow a0.time pA.absence ++ [a0.time] :=
+    stepsBelow_succ_of_mem _ _ hc
+  refine ⟨?_, ?_, ?_, ?_, ?_, h.goodB⟩
+  · show LRel m (update m (a0.time + 1) (stepBody m pA (updated m a0)).live) _
+    rw [update_eq, hq]
+    apply LRel_absence m (updated m a0).live _ _ h.live
+    · show (stepBody m pA (updated m a0)).live.tstate = _
+      rw [hlive]; rfl
+    all_goals first
+      | (show (stepBody m pA (updated m a0)).live.rem = _; rw [hlive]; rfl)
+      | (show (stepBody m pA (updated m a0)).live.allocW = _; rw [hlive]; rfl)
+      | (show (stepBody m pA (updated m a0)).live.allocF = _; rw [hlive]; rfl)
+      | (show (stepBody m pA (updated m a0)).live.wasg = _; rw [hlive]; rfl)
+      | (show (stepBody m pA (updated m a0)).live.fasg = _; rw [hlive]; rfl)
+      | (show (stepBody m pA (updated m a0)).live.cstate = _; rw [hlive]; rfl)
+      | (show (stepBody m pA (updated m a0)).live.placed = _; rw [hlive]; rfl)
+      | (show (stepBody m pA (updated m a0)).live.wpComps = _; rw [hlive]; rfl)
+      | (intro w hw
+         show (stepBody m pA (updated m a0)).live.wstate w = _
+         rw [hlive]
+         show (absenceSet m a0.time false (updated m a0).live).wstate w = _
+         simp [absenceSet, hw])
+      | (intro f hf
+         show (stepBody m pA (updated m a0)).live.fstate f = _
+         rw [hlive]
+         show (absenceSet m a0.time false (updated m a0).live).fstate f = _
+         simp [absenceSet, hf])
+  · show a0.time + 1 = b0.time + (stepsBelow (a0.time + 1) pA.absence).length
+    rw [hsteps, List.length_append, List.length_singleton]
+    have := h.time; omega
+  · show removeLogs m (stepsBelow (a0.time + 1) pA.absence) (stepBody m pA (updated m a0)).logs = _
+    rw [hsteps, stepBody_logs_eq]
+    have := removeLogs_addRow_drop m (!(pA.absence.contains (updated m a0).time))
+      (preLive m (updated m a0).logs pA.rule (updated m a0).time
+        (!(pA.absence.contains (updated m a0).time)) (updated m a0).live)
+      (stepBody m pA (updated m a0)).live a0 h.alignA (stepsBelow a0.time pA.absence)
+    exact this.trans h.logs
+  · exact C08_aligned_step _ (C08_aligned_updated _ h.alignA)
+  · exact Good.stepBody pA (s := updated m a0) gu
+
+/-- **C10, clause 3, current model** (see `PDesy/Props/C10Removal.lean`) -/
+theorem removal_current (m : Model) (p : Params) (L : List Nat) (s : St)
+    (hm : ModelOK m p.rule) (hA : ModelOKA m) (hw : WorkOK m) (hs : p.initState = true)
+    (hl : p.initLog = true) (hflag : p.autoFlag = false)
+    (hsucc : (simulate m { p with absence := L } s).status = .success) :
+    (removeAbs m (simulate m { p with absence := L } s)).logs = (simulate m { p with absence := [] } s).logs ∧
+    (removeAbs m (simulate m { p with absence := L } s)).time = (simulate m { p with absence := [] } s).time ∧
+    (removeAbs m (simulate m { p with absence := L } s)).status =
+      (simulate m { p with absence := [] } s).status ∧
+    (simulate m { p with absence := [] } s).status = .success :=
+  removal_of_absStep m p L s hm hw hs hl (JA m)
+    (JA_enter m hA hw { p with absence := L } s hs)
+    (fun a0 h => JA_step m hA { p with absence := L } a0 h)
+    (rel_absence m { p with absence := L } hm hA hflag) hsucc
+
 end Removal
 end PDesy
